@@ -124,10 +124,16 @@ def c13(tier, seed):
     ck.add(run_cases(prog, handles.run_reader_case, rc), 'reader scripts with any 64-bit offset, zero-length buffers; dev and release arithmetic')
     ck.add(run_cases(prog, handles.run_writer_case, writer_cases(tier, 'C13')), 'writer sessions')
     ck.add(run_cases(prog, handles.run_lifecycle_case, [{'cfg': c} for c in ['mem', 'alt', 'ovl_upper', 'ovl_lower']]), 'handles used after their file was removed')
-    ck.add(run_cases(prog, handles.run_hostile_dir_case, [{'name': n_} for n_ in (b'\xff', b'a\xc3', b'ok', b'\xc3\xa9')]),
+    ck.add(run_cases(prog, handles.run_hostile_dir_case, [{'name': n_} for n_ in (b'\xff', b'a\xc3', b'ok', b'\xc3\xa9')] +
+                     [{'name': b's', 'kind': 'socket'}, {'name': b'l', 'kind': 'dangling_link'}]),
            'PhysicalFS@OSM over a directory that holds a file with a non-UTF-8 name created behind the library (replayed on a real directory)')
     ocs = ovl_cases('UO3', 2, ['C13'], seed, ncfg=40 if tier == 'quick' else None, k1_ops=overlay.HIST_OPS + overlay.OBS_OPS, k2=4 if tier == 'quick' else 30)
     ck.add(run_cases(prog, overlay.run_history_case, ocs), 'overlay histories')
+    # the pure path functions (join/parent/filename/extension) on symbolic strings: no input makes them panic
+    from . import c06 as c06mod
+    la6, lb6 = (5, 5) if tier == 'quick' else (7, 6)
+    pk = [{'la': la_, 'lb': lb_, 'panic_only': True, 'prop': 'C13'} for la_ in range(la6 + 1) for lb_ in range(lb6 + 1)]
+    ck.add(run_cases(prog, c06mod.run_case, pk), 'join/parent/filename/extension on symbolic base and argument strings (|arg| <= %d, |base| <= %d): no panic' % (la6, lb6))
     # panics that need an interleaving: two threads, one call each on overlapping paths of one MemoryFS, every schedule
     from . import threads
     u3 = UNIVERSES['U3']()
@@ -498,9 +504,12 @@ def c12(tier, seed):
     for oc in ocfgs[::(12 if tier == 'quick' else 2)]:
         fcases.append({'universe': 'UO3', 'config': 'ovl', 'state': oc, 'ops': fops, 'props': ['C12']})
     tc = transfer.transfer_cases(['same_mem', 'two_mem', 'same_alt', 'same_altalt', 'mem_to_alt'] if tier == 'quick' else transfer.PAIRS, ['C12'], tier, seed)
+    from . import handles
+    hostile = [{'name': b's', 'kind': 'socket', 'props': ['C12', 'C13']}, {'name': b'l', 'kind': 'dangling_link', 'props': ['C12', 'C13']}]
     return run_onestep('C12', tier, seed, ['mem', 'alt:/a'], ['mem', 'alt:/a', 'alt:/a/b', 'altalt'], ALL_OPS, overlay_plan=plan,
                        more=[(transfer.run_transfer_case, tc, 'transfer operations between instance pairs (error-path monitor)'),
-                             (faults.run_fault_case, fcases, 'error-path monitor under one injected underlying failure at every call position')])
+                             (faults.run_fault_case, fcases, 'error-path monitor under one injected underlying failure at every call position'),
+                             (handles.run_hostile_dir_case, hostile, 'PhysicalFS@OSM: create_dir on a name occupied by a unix socket / a dangling symbolic link reports file-exists (replayed on a real directory)')])
 
 
 @prop('C11')
